@@ -1,6 +1,7 @@
 package main
 
 import (
+	"strings"
 	"fmt"
 
 	tally "github.com/uber-go/tally/v4"
@@ -209,6 +210,15 @@ func c07Scenarios(tier string) []*Scenario {
 			return "", "", deliveredOutcome(x.Rec.Log)
 		}
 		out = append(out, sc)
+	}
+	// a gauge set on a subscope before its Close while a pass is delivering that gauge, then the same scope requested
+	// again: scenarios G2 and G3 of C02 (the last value set before Close reaches the reporter), judged here as well
+	for _, sc := range c02Scenarios(tier) {
+		if strings.HasPrefix(sc.Name, "G3-") || strings.HasPrefix(sc.Name, "G2-") {
+			c := *sc
+			c.Property = "C07"
+			out = append(out, &c)
+		}
 	}
 	return out
 }
